@@ -34,7 +34,7 @@ impl Rig {
             _ => unreachable!(),
         };
         self.log.borrow_mut().clear();
-        let (res, halted) = run_timed(&script, self.base.clone(), 2000);
+        let (res, halted) = run_timed(&script, self.base.clone(), 20000);
         if halted {
             return "HANG".into();
         }
